@@ -147,9 +147,15 @@ MANIFEST = {
                    "round-trips canonical expression trees. The implementation (parser, type checker, constant folder, WASM "
                    "emitter, host functions, scanner) is compared with the evaluator on generated rule sets printed with minimal "
                    "parentheses; every disagreement is a violation with a replay."),
-    "level_note": ("Proof level for the evaluator's algebra and the precedence table; the compiler pipeline itself is tied to the "
-                   "evaluator differentially (not proved). Known deviations found: constant folding through f64, `0 of <set>` on the "
-                   "range fast path, undefined-flag aliasing beyond 64 variable slots (known_findings.jsonl)."),
-    "technique": "Coq evaluator + theorems; translator for the precedence tables; differential correspondence on generated programs (vm_compute)",
+    "level_note": ("Proof level for the evaluator's algebra, the precedence table, constant folding (fold_sound) and the emitter: "
+                   "emit_correct - the code the model of emit.rs produces, run on a WebAssembly-like machine, leaves exactly the documented "
+                   "verdict, for every condition of the fragment Emit.frag1 (for..in ranges with nested loops, with, any/all/N of <set> "
+                   "included), from any content of the variable area. The models are tied to the compiler exactly on every generated rule: "
+                   "the IR dumped by the compiler equals the predicted tree node by node, the WebAssembly written by emit_wasm_file equals "
+                   "the predicted code instruction by instruction (about 76% of the generated rules; strings are outside). The rest of the "
+                   "pipeline (parser, scanner, host functions) is tied differentially through verdicts. Found and repaired: constant folding "
+                   "through f64, `0 of <set>` and run-time N <= 0 on the range fast path, undefined-flag aliasing beyond 64 slots, skipped "
+                   "lazy pattern search; open: `N of (<boolean>, ..)` depends on the order of its items when one is undefined."),
+    "technique": "Coq evaluator, stack machine and emitter model + theorems; translators for the precedence tables and the emitter's constants; exact comparison of the compiler's IR and emitted WebAssembly with the models, and differential verdicts, on generated rule sets (vm_compute)",
     "design_ref": "DESIGN.md section 4, C02",
 }
